@@ -54,7 +54,15 @@ def make_case(seed, index, tier):
                           'count': rng.choice([1, 2, 3, 5, 99]), 'offset': rng.choice(GRID),
                           'work': rng.choice([0, 0, 0.5, 1, 2]),
                           'repeat': rng.randint(1, 3)})
-    return {'seed': seed, 'index': index, 'tier': tier,
+    burst = 0
+    if rng.random() < 0.06:
+        # a consumer that falls far behind: thousands of messages put while it is busy
+        burst = rng.choice([300, 1500, 2500, 5000])
+        producers[0]['ops'].insert(rng.randint(0, len(producers[0]['ops'])),
+                                   {'offset': rng.choice(GRID), 'op': 'burst', 'n': burst})
+        consumers = consumers[:3]
+        consumers[0].update(mode='iter', count=10 ** 9, work=rng.choice([0.5, 1, 2]))
+    return {'seed': seed, 'index': index, 'tier': tier, 'burst': burst,
             'scenario': {'producers': producers, 'consumers': consumers}}
 
 
@@ -76,8 +84,9 @@ class ChannelChecker:
         self.sess.violation('c11:' + mechanism, msg)
 
     # producers
-    def put_start(self, who, message):
-        self.arena.log(who, 'put-start', message)
+    def put_start(self, who, message, quiet=False):
+        if not quiet:
+            self.arena.log(who, 'put-start', message)
         if self.closed_at is None:
             self.puts.append(message)
             return True
@@ -112,15 +121,17 @@ class ChannelChecker:
 
     def receive(self, sub_id, message):
         sub = self.subs[sub_id]
-        self.arena.log(sub['who'], 'receive', message)
+        if len(self.puts) < 200:
+            self.arena.log(sub['who'], 'receive', message)
         self.stats['messages_received'] += 1
         position = sub['from'] + sub['got']
         expected = self.puts[position] if position < len(self.puts) else None
         if message != expected:
             self.violation('wrong-message',
                            '%s received %s, the next message after its subscription is %s '
-                           '(puts %s, subscribed at %d, got %d)' % (
-                               sub['who'], message, expected, self.puts, sub['from'], sub['got']))
+                           '(%d puts, last %s, subscribed at %d, got %d)' % (
+                               sub['who'], message, expected, len(self.puts), self.puts[-6:],
+                               sub['from'], sub['got']))
         sub['got'] += 1
         sub['state'] = 'busy'
         if sub['single']:
@@ -159,7 +170,8 @@ class ChannelChecker:
             if missing:
                 self.violation('undelivered',
                                '%s waits for the next message at %s %r but %s were put since '
-                               'it subscribed and not delivered' % (sub['who'], where, when, missing))
+                               'it subscribed and not delivered' % (
+                                   sub['who'], where, when, missing[:8]))
 
     def ghosts(self, where):
         # early warning on private state: one registered buffer per live subscription
@@ -197,6 +209,20 @@ def build_for(case):
                     if op['op'] == 'close':
                         checker.close_start(name)
                         await channel.close()
+                        continue
+                    if op['op'] == 'burst':
+                        for sub_number in range(op['n']):
+                            message = '%s.%d.%d' % (name, number, sub_number)
+                            accepted = checker.put_start(name, message, quiet=True)
+                            try:
+                                await channel.put(message)
+                            except StreamClosed:
+                                checker.put_outcome(name, message, accepted, True)
+                                break
+                            if sub_number % 100 == 99:
+                                await (time + 0.001)
+                        checker.stats['burst_messages'] = checker.stats.get(
+                            'burst_messages', 0) + op['n']
                         continue
                     message = '%s.%d' % (name, number)
                     accepted = checker.put_start(name, message)
@@ -279,5 +305,8 @@ def check(sess, arena, checker, outcome, plan):
 
 def run_case(case):
     rng = random.Random('%s/%s/c11-inj' % (case['seed'], case['index']))
+    if case.get('burst'):
+        return inject.explore(case, build_for(case), rng, check, case['tier'],
+                              quick_samples=4, max_plans=4 if case['tier'] == 'quick' else 40)
     return inject.explore(case, build_for(case), rng, check, case['tier'],
                           quick_samples=12, max_plans=400)
